@@ -1,6 +1,7 @@
 package props
 
 import (
+	"fmt"
 	"go/token"
 	"go/types"
 	"strings"
@@ -22,6 +23,9 @@ func init() {
 
 func c10() []*Ob {
 	return []*Ob{
+		{Prop: "C10", ID: "C10.6", Engine: "PATHSIM(ACK)", Floor: 3,
+			Desc:  "nothing is acknowledged that no store accepted: StoreDocuments, storeDocs and sendBulkToStores have no success return on a path whose last attempt failed or on which no attempt was made (shared rule with C09.3) — a bulk whose context ended between attempts would otherwise be answered 200 with every document 'created'",
+			Check: shared("C09.3")},
 		{Prop: "C10", ID: "C10.1", Engine: "ALIAS+ORDER", Floor: 2,
 			Desc: "stored bytes are never handed to a mutator: Process' doc parameter and the slice returned by readNext reach no mutating sink; the document is copied into the payload buffer before the next readNext; functions of package tokenizer never append to a view of their input (in-place edits must stay inside the view)",
 			Check: func(c *Ctx) {
@@ -357,6 +361,39 @@ func c10() []*Ob {
 					}
 				}
 			}},
+		{Prop: "C10", ID: "C10.7", Engine: "ACK(reset)", Floor: 2,
+			Desc: "the response lists exactly the created items: the buffer the bulk response is built in comes from bytespool, and a buffer taken from the pool is empty when it is handed out — in Pool.Acquire every returned value that comes from a sync.Pool (through getByIndex, whichever size class) has had Reset called on it on that path (a fresh allocation needs none); a pooled buffer handed out with its previous length puts stale bytes in front of the JSON of the response",
+			Check: func(c *Ctx) {
+				fn := c.Fn("(*bytespool.Pool).Acquire")
+				if fn == nil {
+					return
+				}
+				fromPool := c.P.MayCall(Callee("(*sync.Pool).Get"))
+				reset := Callee("(*bytespool.Buffer).Reset")
+				n := 0
+				for _, rp := range ReturnPaths(fn, 0) {
+					src, _ := rp.Val.(*ssa.Call)
+					if src == nil || !fromPool(src) {
+						continue
+					}
+					n++
+					ok := false
+					for _, r := range CallsIn(fn, reset) {
+						ri := r.(ssa.Instruction)
+						if Receiver(r) == ssa.Value(src) && (ri.Block() == rp.At || ri.Block().Dominates(rp.At)) {
+							ok = true
+						}
+					}
+					if ok {
+						c.Site(rp.Ret.Pos(), "a pooled buffer is reset before it is handed out")
+					} else {
+						c.Violation("ack:Acquire:reset:"+retKeyOf(src), rp.Ret.Pos(), "Pool.Acquire hands out a buffer taken from the pool without resetting it: it still has the length and the bytes its previous user left in it")
+					}
+				}
+				if n == 0 {
+					c.Undecided("ack:Acquire:nopool", fn.Pos(), "Pool.Acquire no longer returns buffers taken from a sync.Pool directly: cannot see where they are emptied")
+				}
+			}},
 		{Prop: "C10", ID: "C10.5", Engine: "ORDER+DOM", Floor: 2,
 			Desc: "framing: in esBulkDocReader.ReadDoc an action line is skipped before every document line, an over-size document loops on without being returned, and the returned slice is capacity-limited (doc[:n:n])",
 			Check: func(c *Ctx) {
@@ -637,4 +674,20 @@ func parseSucceeded(f Fact, parse Matcher) bool {
 		return val
 	}
 	return false
+}
+
+// retKeyOf numbers the pool reads of a function in source order (stable under renames).
+func retKeyOf(call *ssa.Call) string {
+	n := 0
+	for _, b := range call.Parent().Blocks {
+		for _, in := range b.Instrs {
+			if cl, ok := in.(*ssa.Call); ok && CallName(cl) == CallName(call) {
+				n++
+				if cl == call {
+					return fmt.Sprintf("%s#%d", CallName(call), n)
+				}
+			}
+		}
+	}
+	return CallName(call)
 }
